@@ -250,7 +250,7 @@ HISTORY = {}       # input text -> the (tag, text) members that ran before it in
 
 STRUCTURAL = ('Reservoir Model', 'End-Use Option', 'Power Plant Type', 'Economic Model', 'Number of Segments', 'Well Drilling Cost Correlation',
               'Injection Well Drilling Cost Correlation', 'Reservoir Volume Option', 'Fracture Shape', 'Print Output to Console', 'Time steps per year',
-              'Construction Years', 'Do ', 'Is ', 'AddOn', 'District Heating Demand', 'Wellbore', 'Plant Outlet Pressure', 'Production Wellhead Pressure',
+              'Do ', 'Is ', 'AddOn', 'District Heating Demand', 'Wellbore', 'Plant Outlet Pressure', 'Production Wellhead Pressure',
               'Number of Multilateral', 'Well Geometry', 'Cylindrical', 'SBT', 'Total Nonvertical Length', 'Units:')
 
 
@@ -280,7 +280,7 @@ def neighbour_chains(jobs: list, nbases: int, k: int, seed_: int, prefer: tuple 
         chain = [(f'chain:{tag}', text)]
         for name, x in (first + rest)[:k]:
             new = repr(x * rng.choice([0.9, 1.1])) if not float(x).is_integer() or abs(x) > 50 else repr(x * rng.choice([0.9, 1.1]))
-            if name in ('Plant Lifetime',) or name.startswith('Number of'):
+            if name in ('Plant Lifetime', 'Construction Years') or name.startswith('Number of'):
                 new = str(int(x) + 1)
             chain.append((f'chain:{tag}~{name}', text.rstrip('\n') + f'\n{name}, {new}\n'))
         if len(chain) > 1:
